@@ -155,10 +155,8 @@ func (s *backendStorageCommon) GetBackends() []*Backend {
 	return result
 }
 
+// getBackendLocked must be called with "s.mu" held by the caller.
 func (s *backendStorageCommon) getBackendLocked(u *url.URL) *Backend {
-	s.mu.RLock()
-	defer s.mu.RUnlock()
-
 	entries, found := s.backends[u.Host]
 	if !found {
 		return nil
